@@ -77,3 +77,10 @@ Proof. intros n t b j. unfold spend_term. cbn. destruct b, j; reflexivity. Qed.
 
 Theorem tie_spend_one_conditional : x_spend_powerBefore_conditionals = 1%nat.
 Proof. reflexivity. Qed.
+
+(* non-vacuity: 13 power requested for a bonded validator holding 10 adds 3; for a jailed or unbonded one it adds 13 *)
+Example spend_examples :
+  spend_term 13000000 10000000 true false = Some 3 /\
+  spend_term 13000000 10000000 true true = Some 13 /\
+  spend_term 0 10999999 true false = Some 10.
+Proof. vm_compute. repeat split; reflexivity. Qed.
